@@ -1106,6 +1106,8 @@ class Allocation:
             self.rank = DEFAULT_RANK
         if rank_adjustment is not None:
             self.rank_adjustment = rank_adjustment
+        else:
+            self.rank_adjustment = 0
         self.set_reserved(reserved)
         self.set_max_utilization(max_utilization)
 
